@@ -46,6 +46,10 @@ structure Cfg where
   /-- does `ChunkSignatureRequestVerifier.Verify` compare the message to be signed with the
   justification chunk (`fixes/C37-verify-signed-message-matches-chunk.*.patch`)? Probed. -/
   checksMessage : Bool := false
+  /-- does the peer node's real `GetChunkHandler` serve the chunk with this id when asked with
+  the expiry of the certificate being fetched (`GetChunkBytes` on the peer's storage succeeds)?
+  Set by the driver from the peer's modelled storage for each `accept`. -/
+  peerServes : Nat → Bool := fun _ => false
 
 /-! ## `internal/emap` as a set with expiry -/
 
@@ -370,6 +374,7 @@ inductive Resp where
   | appErr            -- AppError / unparsable response
   | chunk (j : Nat)   -- a well-formed chunk with id `j`
   | sendFail          -- `AppRequest` itself fails (also: script exhausted)
+  | peer              -- the request is answered by the peer node's real `GetChunkHandler`
   deriving Repr, DecidableEq
 
 /-- the `for { … }` request loop of `Accept` for one missing chunk: returns the id of the
@@ -384,6 +389,13 @@ def fetch (cfg : Cfg) (want : Nat) : Storage → List Resp → Storage × List R
     else match verifyRemote cfg s j with
       | (s', .stored) => (s', r, some j)
       | (s', .known) => (s', r, some j)
+      | (s', .panic) => (s', r, none)
+      | (_, .err _) => fetch cfg want s r
+  | s, .peer :: r =>
+    if !cfg.peerServes want then fetch cfg want s r   -- `ErrChunkNotAvailable`
+    else match verifyRemote cfg s want with
+      | (s', .stored) => (s', r, some want)
+      | (s', .known) => (s', r, some want)
       | (s', .panic) => (s', r, none)
       | (_, .err _) => fetch cfg want s r
 
